@@ -87,6 +87,13 @@ def impl_convert(case, uin=None, uout=None, flux=None):
 def impl_call(case):
     op = case['op']
     if op == 'convert_flux':
+        for pr in case.get('prior', []):
+            # earlier conversions with the same caller-owned Vega spectrum must not matter: results discarded
+            try:
+                impl_convert(dict(case, wv=pr['wv'], wunit=pr['wunit']), uin='photlam', uout='vegamag',
+                             flux=[1.0] * len(pr['wv']))
+            except Exception:   # noqa
+                pass
         out = guarded(lambda: impl_convert(case))
         # property oracle pieces that need the implementation again
         extra = {}
@@ -341,6 +348,21 @@ def make_case(rng, uin, uout, K, shape=None, wunit=None, nmax=6):
         via = None
     if via:
         case['via'] = via
+    if case['vega_tab'] is not None and rng.random() < 0.5:
+        # the same Vega spectrum object was used before: the same numbers in another wavelength unit, the same grid,
+        # or another grid of the same length
+        prior = []
+        for _ in range(rng.randint(1, 2)):
+            k = rng.random()
+            if k < 0.5:
+                other = rng.choice([w for w in WAVE_UNITS if w != wunit])
+                prior.append({'wv': case['wv'], 'wunit': other})
+            elif k < 0.7:
+                prior.append({'wv': case['wv'], 'wunit': wunit})
+            else:
+                pv = gen_wavelengths(rng, max(n, 2), wunit)[:n]
+                prior.append({'wv': qs(pv), 'wunit': wunit})
+        case['prior'] = prior
     return case
 
 
@@ -395,7 +417,7 @@ def run(rep):
     rep.rule = ('every ordered pair of 12 flux units (incl. Jy, mJy, uJy) x wavelength-unit kinds x {ascending, descending, scalar}, '
                 'plus random pairs; wavelengths log-uniform in 1e1..1e7 A, linear fluxes log-uniform over 60 decades with '
                 'both signs and zeros, magnitudes in [-60, 60], area in cm^2 or m^2, positive Vega table; 35% with an '
-                'intermediate unit C (A->C->B); every unit name of the statement in up to 6 letter casings. '
+                'intermediate unit C (A->C->B); half of the Vega conversions after 1-2 earlier conversions with the same Vega object (same numbers in another wavelength unit, same grid, other grid); every unit name of the statement in up to 6 letter casings. '
                 'Non-trivial: uin != uout and the conversion did not end in a missing-input error.')
 
     def nontrivial(c, o):
